@@ -83,6 +83,11 @@ def cache():
     return _cache
 
 
+SIDS = [SID, "S-1-5-18", "S-1-5-21-1-2-3-4-5-6-7-8-9-10-11-12-13-14", "S-1-0-0"]
+RKID2 = uuid.UUID("0f3c5a6e-1111-4222-8333-944455556666")
+_n = [0]
+
+
 def protect_at(ft: int, phase: int = 0, fresh_cache: bool = False) -> bytes:
     import dpapi_ng
 
@@ -90,8 +95,13 @@ def protect_at(ft: int, phase: int = 0, fresh_cache: bool = False) -> bytes:
     if fresh_cache:
         c = dpapi_ng.KeyCache()
         c.load_key(ROOT, RKID)
+    _n[0] += 1
+    sid = SIDS[_n[0] % 4 if _n[0] % 3 == 0 else 0]  # mostly one SID (stateful effects), regularly the others
+    if _n[0] == 1000:
+        c.load_key(bytes(range(64, 128)), RKID2)  # a second root key appears in the shared cache later on
+    rk = RKID2 if (_n[0] > 1000 and _n[0] % 7 == 0 and not fresh_cache) else RKID
     with mon.CLOCK.at_ns(mon.filetime_to_ns(ft, phase)):
-        return dpapi_ng.ncrypt_protect_secret(b"c09", SID, root_key_identifier=RKID, cache=c)
+        return dpapi_ng.ncrypt_protect_secret(b"c09", sid, root_key_identifier=rk, cache=c)
 
 
 def check_instant(rec: Recorder, ft: int, phase: int, near: bool, fresh: bool = False) -> None:
@@ -214,6 +224,17 @@ def run_shard(spec: dict, rec: Recorder) -> None:
         for i in range(spec["n"]):
             ft = rng.randrange(lo, hi)
             check_instant(rec, ft, rng.randrange(100), abs((ft % B) - B // 2) > B // 2 - 64, fresh=(i % 50 == 0))
+        # far outside the everyday range: 1700, just before 1970, 2262 (64-bit ns limit), 3000, 9999; time going backwards
+        year = 365.2425 * 864000000000
+        for yr in (1700, 1900, 1969.9999, 1970.0001, 2262.3, 2500, 3000, 9999):
+            base_ft = int((yr - 1601) * year)
+            for j in range(6):
+                ft = base_ft - j * (B * 32 * 40 + 12345)
+                check_instant(rec, ft, 0, True)
+                for bnd in ((ft // B) * B, (ft // (32 * B)) * 32 * B, (ft // (1024 * B)) * 1024 * B):
+                    for off in (-1, 0, 1):
+                        check_instant(rec, bnd + off, 99 if off < 0 else 0, True)
+            rec.seen("extreme_years", yr)
         rec.sample({"kind": "random instant", "filetime": ft})
         # the real clock (no scripted value): identifier must be the interval of an instant between two reads
         import time
